@@ -130,9 +130,6 @@ Qed.
 Lemma vcpu_base_field : field_find "vcpu_base" sv_fields = Some (sv_vcpu_base_offset, 4).
 Proof. vm_compute. reflexivity. Qed.
 
-(* the address the library computes: the word stored in sv.vcpu_base + block size * core + field offset *)
-Definition vcpu_addr (M : machine) (c : chip) (p off : Z) : Z :=
-  le_word (mem_range (M c) (sv_struct_base + sv_vcpu_base_offset) 4) + vcpu_struct_size * p + off.
 
 Lemma mc_vcpu_address_ok : forall buffer nbr M c p name off n,
   1 <= buffer < 2 ^ 32 -> field_find name vcpu_fields = Some (off, n) ->
